@@ -206,6 +206,18 @@ def check_one(mtj, none, fmt, opts, order=None):
                 bad('skipdisco', 'discontinuous tree with brackets_skipdisco: error %r, output %r' % (err, text))
         elif not isinstance(err, ValueError):
             bad('disco-not-refused', 'discontinuous tree was not refused with ValueError (error %r, output %r)' % (err, text[:80]))
+        # a tree for which nothing was written is still the user's tree: the usual fallback (write the refused
+        # ones in another format) must show the original tokens
+        from ..bridge import canon as _canon
+        if not out and _canon(t) != _canon(build_variant(mt, none, order)):
+            fb = io.StringIO()
+            try:
+                treeoutput.export(t, fb, export_four=True)
+                shown = [(x['word'], x['pos']) for x in codecs.decode_export(fb.getvalue(), version=4)[0].toks]
+            except Exception as e:
+                shown = '%s: %s' % (type(e).__name__, e)
+            bad('refused-but-changed', 'the bracket writer refused / skipped the discontinuous tree but changed it in place; '
+                'written in export format afterwards it shows %r' % (shown,))
         return out
     if err is not None:
         bad('exception', '%s: %s' % (type(err).__name__, err))
